@@ -45,7 +45,7 @@ Apply(e, bs) ==
       [] e.op = "rm_pad"   -> Without(bs, "pad")
       [] e.op = "add_pad"  -> Append(bs, [k |-> "pad", n |-> e.n])
       [] e.op = "add_icon" -> Append(bs, [k |-> "icon", n |-> e.n])               \* Picture is MULTIPLE; two PNG icons are invalid
-      [] OTHER -> bs                                                           \* "fail": the callback returns Err
+      [] OTHER -> bs                    \* "fail": the callback returns Err; "edit_si": STREAMINFO alone is edited (no size changes)
 
 InPlace(ed)  == [res |-> "inplace", blocks |-> ed]
 Rebuilt(ed)  == [res |-> "rebuilt", blocks |-> ed]
